@@ -90,7 +90,15 @@ pub fn published_digits_audit(ctx: &mut Ctx, bytes: &[u8]) -> bool {
     let pk: PublicKey<1> = match wire::de(&bytes[n * 96..]) { Ok(p) => p, Err(_) => { ctx.broken("range key does not decode"); return false; } };
     let mut ok = true;
     for i in 0..n {
-        let sig: Signature = match wire::de(&bytes[96 * i..96 * i + 96]) { Ok(s) => s, Err(_) => { ctx.broken("published digit signature does not decode"); return false; } };
+        let sig: Signature = match wire::de(&bytes[96 * i..96 * i + 96]) {
+            Ok(s) => s,
+            Err(e) => {
+                ctx.violation(&format!("published digit signature #{} is not a well-formed signature ({}): the digit {} cannot be proven / the parameters do not validate", i, e, i),
+                    json!({"class": "range-parameters-digit-signature-malformed", "index": i, "signature": hex::encode(&bytes[96 * i..96 * i + 96])}));
+                ok = false;
+                continue;
+            }
+        };
         let on = |v: u64| sig.verify(&pk, &Message::<1>::from(Scalar::from(v)));
         if i >= 128 {
             // which value does the surplus signature sign?
